@@ -336,10 +336,10 @@ Section Inv.
 
   (** Once the end time is set nothing the snapshot copies changes any more. *)
   Lemma frozen s t s' : R s -> endt s <> 0 -> step c s t = Some s' ->
-    mk_snap s' = mk_snap s /\ applied s' = applied s /\ kids s' = kids s.
+    mk_snap s' = mk_snap s /\ applied s' = applied s /\ kids s' = kids s /\ drops s' = drops s.
   Proof.
     intros Hr He Hs. destruct (invC s Hr) as (_ & _ & _ & _ & C5).
-    step_cases Hs; unfold recording in *; rewrite ?Nat.eqb_eq in *; cbn; auto; try congruence.
+    step_cases Hs; unfold recording in *; rewrite ?Nat.eqb_eq in *; cbn; auto 6; try congruence.
     all: exfalso; apply He; eapply C5; eauto.
   Qed.
 
@@ -395,6 +395,12 @@ Section Inv.
                      | left; eapply D7; eauto | eapply D7; eauto | eapply D8; eauto ].
   Qed.
 
+  (** From here to [spec_ok_holds]: spans without limits (the accounting under limits is ProofsLim.v). *)
+  Hypothesis Hunl : lims c = no_limits.
+
+  Lemma new_parts_unl s k x : new_parts c s k x = parts s ++ [x].
+  Proof. unfold new_parts. rewrite Hunl. now destruct k. Qed.
+
   Definition partial (s : state) : list (nat * nat) :=
     match mu s with
     | Some t => match pcs s t with MApply i => full t i | _ => [] end
@@ -421,7 +427,7 @@ Section Inv.
                 assert (h <> t) by (intros ->; destruct HLt as [_ X]; discriminate (X eq_refl));
                 rewrite upd_other by assumption; assumption).
       all: try (rewrite upd_same; try destruct o; cbn; exact D1).
-      + rewrite full_S, app_assoc. fold (flat (applied s)). rewrite <- D1. reflexivity.
+      + rewrite new_parts_unl, full_S, app_assoc. fold (flat (applied s)). rewrite <- D1. reflexivity.
       + rewrite flat_map_app. cbn. rewrite app_nil_r.
         assert (Hi : i = np t).
         { specialize (D4t i eq_refl). unfold np in *. rewrite E in *. cbn in *. lia. }
@@ -715,34 +721,38 @@ Section Inv.
   Lemma winner_eq s : endt s <> 0 -> endt s = S (winner s).
   Proof. unfold winner. destruct (endt s); [contradiction | reflexivity]. Qed.
 
-  (** Every event satisfies its clause at the moment it is recorded. *)
-  Lemma emit_ok s t s' : R s -> step c s t = Some s' ->
-    hist s' = hist s \/ exists e, hist s' = hist s ++ [e] /\ ev_ok (nprocs c) (hist s) e = true.
+  (** Every event at the moment it is recorded: calls and returns satisfy their clause; an OnEnd
+      delivery is the first for its processor, follows an End call, carries the snapshot of the
+      present (ended) state, equal to every earlier one. *)
+  Lemma emit_base s t s' : R s -> step c s t = Some s' ->
+    hist s' = hist s \/
+    exists e, hist s' = hist s ++ [e] /\
+      match e with
+      | EvOnEnd p sn => onend_base (nprocs c) (hist s) p sn = true /\ sn = mk_snap s /\ endt s <> 0
+      | _ => ev_ok (nprocs c) (hist s) e = true
+      end.
   Proof.
     intros Hr Hs.
     pose proof (invA s Hr) as [HL HP]. pose proof (invB s Hr) as (B1 & B2 & B3 & B4 & B5 & B6).
     pose proof (invC s Hr) as (C1 & C2 & C3 & C4 & C5).
     pose proof (invF s Hr) as (F1 & F2 & F3).
     assert (HPt := HP t).
-    step_cases Hs; norm; cbn [hist set_pc set_mu emit set_endt add_part finish_mut inc_child]; auto.
-    - (* call *)
-      right. eexists. split; [reflexivity|]. cbn. now rewrite B1.
-    - (* OnEnd *)
-      right. eexists. split; [reflexivity|].
+    step_cases Hs; norm; cbn [hist set_pc set_mu emit set_endt apply_part finish_mut inc_child]; auto.
+    - right. eexists. split; [reflexivity|]. cbn. now rewrite B1.
+    - right. eexists. split; [reflexivity|].
       assert (Het : endt s = S t) by (apply C2; now rewrite E0).
       assert (Hne : endt s <> 0) by lia.
       destruct (F2 _ _ _ E0) as [_ Hsn]. subst sn.
       assert (Hd : dcount s = k) by (unfold dcount; now rewrite Het, E0).
-      cbn [ev_ok]. destruct (C4 Hne) as (Hec & _).
-      apply andb_true_iff; split; [apply andb_true_iff; split; [apply andb_true_iff; split;
-        [apply andb_true_iff; split|]|]|];
-        [ now apply Nat.ltb_lt | | exact Hec | | now apply snap_ok_reach ].
+      destruct (C4 Hne) as (Hec & _). split; [|auto].
+      unfold onend_base.
+      apply andb_true_iff; split; [apply andb_true_iff; split; [apply andb_true_iff; split|]|];
+        [ now apply Nat.ltb_lt | | exact Hec | ].
       + apply negb_true_iff, not_true_is_false. intros Hex. apply onend_exists in Hex as [sn Hin].
         apply F1 in Hin. lia.
       + apply forallb_forall. intros e Hin. destruct e as [| |p sn]; auto.
         apply F1 in Hin as [_ ->]. now apply snap_eqb_eq.
-    - (* return *)
-      right. eexists. split; [reflexivity|]. cbn in HPt. cbn [ev_ok].
+    - right. eexists. split; [reflexivity|]. cbn in HPt. cbn [ev_ok].
       replace (mem_ev (EvCall t o) (hist s)) with true
         by (symmetry; apply mem_ev_In; apply B2; congruence).
       rewrite B3 by congruence. cbn [negb andb].
@@ -752,11 +762,32 @@ Section Inv.
       + now apply C4.
   Qed.
 
+  (** Every event satisfies its clause at the moment it is recorded. *)
+  Lemma emit_ok s t s' : R s -> step c s t = Some s' ->
+    hist s' = hist s \/ exists e, hist s' = hist s ++ [e] /\ ev_ok (nprocs c) (hist s) e = true.
+  Proof.
+    intros Hr Hs. destruct (emit_base s t s' Hr Hs) as [H|[e [He H]]]; [now left|right].
+    exists e. split; [exact He|]. destruct e as [| |p sn]; try exact H.
+    destruct H as (Hb & -> & Hne). cbn [ev_ok]. fold (onend_base (nprocs c) (hist s) p (mk_snap s)).
+    rewrite Hb. now rewrite snap_ok_reach.
+  Qed.
+
   Theorem spec_holds s : R s -> Spec (nprocs c) (hist s).
   Proof.
     intros Hr past e fut Hh.
     eapply (history_positions (step c) init hist (fun past e => ev_ok (nprocs c) past e = true)); eauto.
     intros s0 t s0' Hr0 Hs0. exact (emit_ok s0 t s0' Hr0 Hs0).
+  Qed.
+
+  (** The limit-independent clauses hold whatever the span limits are. *)
+  Theorem specw_holds s : R s -> SpecW (nprocs c) (hist s).
+  Proof.
+    intros Hr past e fut Hh.
+    eapply (history_positions (step c) init hist (fun past e => ev_w (nprocs c) past e = true)); eauto.
+    intros s0 t s0' Hr0 Hs0. destruct (emit_base s0 t s0' Hr0 Hs0) as [H|[e0 [H He0]]]; [now left|right].
+    exists e0. split; [exact H|]. destruct e0 as [| |p sn]; try exact He0.
+    destruct He0 as (Hb & -> & Hne). cbn [ev_w]. rewrite Hb, (children_reach s0 Hr0). cbn [andb sn_et mk_snap].
+    destruct (endt s0); [contradiction | reflexivity].
   Qed.
 
   Theorem final_holds s : R s -> SpecFinal (nprocs c) (hist s).
@@ -814,7 +845,16 @@ End Inv.
 
 (** * Part 4: readable consequences of the specification (model independent) *)
 
-Lemma Spec_snoc P l e : Spec P (l ++ [e]) <-> Spec P l /\ ev_ok P l e = true.
+Lemma ev_ok_w P past e : ev_ok P past e = true -> ev_w P past e = true.
+Proof.
+  destruct e as [| |p sn]; auto. cbn [ev_ok ev_w]. unfold onend_base, snap_ok.
+  rewrite !andb_true_iff. tauto.
+Qed.
+
+Lemma Spec_W P h : Spec P h -> SpecW P h.
+Proof. intros H past e fut E. apply ev_ok_w. eapply H; eauto. Qed.
+
+Lemma SpecW_snoc P l e : SpecW P (l ++ [e]) <-> SpecW P l /\ ev_w P l e = true.
 Proof.
   split.
   - intros H. split.
@@ -827,37 +867,44 @@ Proof.
       eapply H1; eauto.
 Qed.
 
+Lemma ev_w_onend P past p sn : ev_w P past (EvOnEnd p sn) = true ->
+  p < P /\ existsb (is_onend_of p) past = false /\ has_end_call past = true /\
+  (forall q x, In (EvOnEnd q x) past -> x = sn) /\ children_ok past sn = true /\ sn_et sn <> 0.
+Proof.
+  cbn [ev_w]. unfold onend_base. rewrite !andb_true_iff. intros [[[[[Hp Hn] Hh] Hall] Hc] Het].
+  repeat split; auto.
+  - now apply Nat.ltb_lt.
+  - now apply negb_true_iff.
+  - intros q x Hin. rewrite forallb_forall in Hall. specialize (Hall _ Hin). now apply snap_eqb_eq in Hall.
+  - apply Nat.ltb_lt in Het. lia.
+Qed.
+
 (** At most one OnEnd per processor. *)
-Lemma Spec_once P h p : Spec P h -> countb (is_onend_of p) h <= 1.
+Lemma Spec_once P h p : SpecW P h -> countb (is_onend_of p) h <= 1.
 Proof.
   induction h as [|e l IH] using rev_ind; intros H; [cbn; lia|].
-  apply Spec_snoc in H as [Hl He]. rewrite countb_snoc.
+  apply SpecW_snoc in H as [Hl He]. rewrite countb_snoc.
   destruct (is_onend_of p e) eqn:Ep; [|specialize (IH Hl); lia].
   destruct e as [| |q sn]; try discriminate. cbn in Ep. apply Nat.eqb_eq in Ep; subst q.
-  cbn in He. rewrite !andb_true_iff in He. destruct He as [[[[_ Hn] _] _] _].
-  apply negb_true_iff in Hn. apply countb_zero in Hn. lia.
+  apply ev_w_onend in He as (_ & Hn & _). apply countb_zero in Hn. lia.
 Qed.
 
 (** Only registered processors receive it. *)
-Lemma Spec_registered P h p sn : Spec P h -> In (EvOnEnd p sn) h -> p < P.
+Lemma Spec_registered P h p sn : SpecW P h -> In (EvOnEnd p sn) h -> p < P.
 Proof.
   intros H Hin. apply in_split in Hin as (a & b & ->). specialize (H a _ b eq_refl).
-  cbn in H. rewrite !andb_true_iff in H. destruct H as [[[[Hp _] _] _] _]. now apply Nat.ltb_lt.
+  apply ev_w_onend in H. tauto.
 Qed.
 
 (** One snapshot (hence one end time) for all deliveries, and it is non-zero. *)
-Lemma Spec_one_snapshot P h : Spec P h ->
+Lemma Spec_one_snapshot P h : SpecW P h ->
   forall p sn p' sn', In (EvOnEnd p sn) h -> In (EvOnEnd p' sn') h -> sn = sn' /\ sn_et sn <> 0.
 Proof.
   induction h as [|e l IH] using rev_ind; intros H p sn p' sn' H1 H2; [destruct H1|].
-  apply Spec_snoc in H as [Hl He]. specialize (IH Hl).
+  apply SpecW_snoc in H as [Hl He]. specialize (IH Hl).
   assert (Hlast : forall q x, e = EvOnEnd q x ->
             sn_et x <> 0 /\ forall q' x', In (EvOnEnd q' x') l -> x' = x).
-  { intros q x ->. cbn in He. rewrite !andb_true_iff in He. destruct He as [[[[_ _] _] Hall] Hsn].
-    split.
-    - unfold snap_ok in Hsn. rewrite !andb_true_iff in Hsn. destruct Hsn as [_ Het].
-      apply Nat.ltb_lt in Het. lia.
-    - intros q' x' Hin. rewrite forallb_forall in Hall. specialize (Hall _ Hin). now apply snap_eqb_eq in Hall. }
+  { intros q x ->. apply ev_w_onend in He as (_ & _ & _ & Hall & _ & Het). auto. }
   apply in_app_iff in H1 as [H1|[H1|[]]]; apply in_app_iff in H2 as [H2|[H2|[]]].
   - eapply IH; eauto.
   - destruct (Hlast _ _ H2) as [Ha Hb]. rewrite (Hb _ _ H1). auto.
@@ -867,9 +914,14 @@ Qed.
 
 (** Delivery only after End was invoked. *)
 Lemma Spec_after_end_call P past p sn fut :
-  Spec P (past ++ EvOnEnd p sn :: fut) -> has_end_call past = true.
+  SpecW P (past ++ EvOnEnd p sn :: fut) -> has_end_call past = true.
+Proof. intros H. specialize (H past _ fut eq_refl). apply ev_w_onend in H. tauto. Qed.
+
+Lemma SpecW_children P past p sn fut : SpecW P (past ++ EvOnEnd p sn :: fut) ->
+  countb is_child_ret (pre_end past) <= sn_children sn <= countb is_child_call (cut past).
 Proof.
-  intros H. specialize (H past _ fut eq_refl). cbn in H. rewrite !andb_true_iff in H. tauto.
+  intros H. specialize (H past _ fut eq_refl). apply ev_w_onend in H as (_ & _ & _ & _ & Hc & _).
+  unfold children_ok in Hc. rewrite andb_true_iff, !Nat.leb_le in Hc. tauto.
 Qed.
 
 Lemma Spec_snap P past p sn fut :
@@ -912,7 +964,7 @@ Proof.
 Qed.
 
 (** IsRecording: true only if invoked before the end was visible; false only after an End was invoked. *)
-Lemma Spec_isrec P past t r fut : Spec P (past ++ EvRet t OIsRec r :: fut) ->
+Lemma Spec_isrec P past t r fut : SpecW P (past ++ EvRet t OIsRec r :: fut) ->
   (r = true -> In (EvCall t OIsRec) (cut past)) /\ (r = false -> has_end_call past = true).
 Proof.
   intros H. specialize (H past _ fut eq_refl). cbn in H. rewrite !andb_true_iff in H.
